@@ -44,7 +44,7 @@ fn apply_body(day_offset: i64) {
     vcover!("date_offset.six_days", matches!(wday_offset, WeekDayOffset::Next(_)) && (r - base).num_days() == 6);
 }
 
-//@H props=C01,C04 tier=quick kind=complete cap=1500 domain="day offset 0: all weekday offsets x all dates 1900..9999"
+//@H tier_C04=thorough props=C01,C04 tier=quick kind=complete cap=1500 domain="day offset 0: all weekday offsets x all dates 1900..9999"
 #[cfg_attr(kani, kani::proof)]
 #[cfg_attr(verif_replay, test)]
 fn date_offset_apply_no_day_offset() {
